@@ -16,6 +16,8 @@ LOAD = "nemoguardrails/colang/v2_x/lang/grammar/load.py"
 FMT = "nemoguardrails/colang/v2_x/lang/utils.py"
 CFG = "nemoguardrails/rails/llm/config.py"
 V1U = "nemoguardrails/colang/v1_0/lang/utils.py"
+PARSER = "nemoguardrails/colang/v2_x/lang/parser.py"
+ELLIPSIS_PATTERN = r"^( +)\.\.\."
 
 NEWLINE_DEF = r"(/\r?\n[\t ]*/)+"
 COMMENT_DEF = r"/#[^\n]*/"
@@ -146,8 +148,39 @@ def formatter_kind():
     raise TieBroken("format_colang_parsing_error_message has a body the ErrWrap model does not know (neither the pinned one nor the repaired one)")
 
 
+def pre_expansion():
+    """pattern and replacement of the `...` rewrite in ColangParser._apply_pre_parsing_expansions"""
+    import textwrap
+
+    fn = find_def(parse(PARSER), "_apply_pre_parsing_expansions", "ColangParser")
+    subs = [n for n in ast.walk(fn) if isinstance(n, ast.Call) and isinstance(n.func, ast.Attribute) and n.func.attr == "sub"
+            and isinstance(n.func.value, ast.Name) and n.func.value.id == "re"]
+    if len(subs) != 1:
+        raise TieBroken(f"_apply_pre_parsing_expansions: expected one re.sub call, found {len(subs)}")
+    c = subs[0]
+    if len(c.args) != 3 or c.keywords:
+        raise TieBroken("_apply_pre_parsing_expansions: re.sub is no longer called as re.sub(pattern, template, line)")
+    if not (isinstance(c.args[0], ast.Constant) and c.args[0].value == ELLIPSIS_PATTERN):
+        got = c.args[0].value if isinstance(c.args[0], ast.Constant) else ast.dump(c.args[0])[:60]
+        raise TieBroken(f"_apply_pre_parsing_expansions: the `...` pattern is {got!r}, the PreExpand model covers {ELLIPSIS_PATTERN!r} only")
+    t = c.args[1]
+    if not (isinstance(t, ast.Call) and isinstance(t.func, ast.Attribute) and t.func.attr == "dedent" and len(t.args) == 1 and isinstance(t.args[0], ast.Constant)):
+        raise TieBroken("_apply_pre_parsing_expansions: the replacement is no longer textwrap.dedent(<literal>)")
+    tpl = textwrap.dedent(t.args[0].value)
+    if not (tpl.startswith("\n") and tpl.endswith("\n")):
+        raise TieBroken("_apply_pre_parsing_expansions: replacement template does not start and end with a line break")
+    body = tpl[1:-1].split("\n")
+    out = []
+    for l in body:
+        if not l.startswith("\\1") or "\\" in l[2:]:
+            raise TieBroken(f"_apply_pre_parsing_expansions: replacement line {l!r} is not `\\1<statement>`")
+        out.append(l[2:])
+    return out, fingerprint(fn)
+
+
 def run():
     g = grammar_layout()
+    exp_lines, pfp = pre_expansion()
     consts, fps = indenter_consts()
     wfp = wrapper_shape()
     kind, ffp = formatter_kind()
@@ -171,6 +204,10 @@ def closeParens : List String := {lean_list([lean_str(s) for s in consts['CLOSE_
     true = the total one of fixes/C13-error-formatter-total.diff. -/
 def formatterTotal : Bool := {str(kind == 'total').lower()}
 
+/-- the statements the stand-alone `...` is rewritten to by `_apply_pre_parsing_expansions` (each prefixed by the captured indentation);
+    the pattern is `^( +)\\.\\.\\.` (the translator refuses any other). -/
+def expansionLines : List String := {lean_list([lean_str(x) for x in exp_lines])}
+
 end NemoVerif.Generated.C13
 """
     write_generated("C13", body)
@@ -178,5 +215,6 @@ end NemoVerif.Generated.C13
         "grammar": g,
         "indenter": consts,
         "formatter": kind,
-        "fingerprints": dict(fps, format_colang_parsing_error_message=ffp, _parse_colang_files_recursively=wfp, get_numbered_lines=fingerprint(v1)),
+        "fingerprints": dict(fps, format_colang_parsing_error_message=ffp, _parse_colang_files_recursively=wfp, get_numbered_lines=fingerprint(v1), _apply_pre_parsing_expansions=pfp),
+        "expansion_lines": len(exp_lines),
     }
